@@ -116,6 +116,8 @@ fn extend_subst<L: Language>(pv: &PVar, x: AppliedId, mut st: MultiState, eg: &E
     if let Some(y) = st.subst.get(pv).cloned() {
         unify(&x, &y, st, eg)
     } else {
+        // the slots of `x` might already have been unified with pattern slots.
+        let x = state_appid_find(x, &st);
         st.subst.insert(pv.clone(), x);
         vec![st]
     }
